@@ -10,6 +10,7 @@ Delivered in one piece the bytes behind '0\\r\\n' are silently dropped with the 
 
 Run: /venv/bin/python findings/C13-last-chunk-complete-too-early.py     (exit 1 = defect present)
 """
+import re
 import socket
 import sys
 sys.path.insert(0, __import__('os').environ.get('VERIF_REPO', '/repo'))
@@ -57,7 +58,7 @@ def serve(pieces):
             pass
     c.close()
     srv.server._sock.close()
-    return seen, [l for l in got.split(b'\r\n') if l.startswith(b'HTTP/')], 'closed by server' if closed else 'kept open'
+    return seen, re.findall(rb'HTTP/1\.\d \d{3}', got), 'closed by server' if closed else 'kept open'
 
 
 def client(pieces):
